@@ -151,7 +151,7 @@ def check_pipeline(names, ctx, ks, consumers):
                 evals += 1
                 # a stage below skip() sees a data row as its header: header reads may then pull one row each
                 # and a data-dependent header (unpackdict sampling) costs its declared read-ahead
-                hdrshift = sum(1 for nm in names if nm.startswith('skip(')) + ahead
+                hdrshift = sum(3 for nm in names if nm.startswith('skip(')) + ahead   # 1 row + an upstream look-ahead of <= 2
                 if sum(c0) > hdrshift:
                     bad.append(('data rows read at construction', {'consumer': consumer, 'k': k, 'N': N,
                                                                     'pulled': c0}))
@@ -190,7 +190,7 @@ def construct_ops():
 def check_construction(names, ctx):
     bad = []
     ahead = sum(READAHEAD.get(n, 0) for n in names)
-    hdrshift = sum(1 for nm in names if nm.startswith('skip(')) + ahead
+    hdrshift = sum(3 for nm in names if nm.startswith('skip(')) + ahead   # 1 row + an upstream look-ahead of <= 2
     pulls = []
     for N in (N1, N2):
         try:
